@@ -88,6 +88,8 @@ StrLit(x)     == [k |-> "str", v |-> x]                           \* "x"
 DLit(n)       == [k |-> "dlit", v |-> n]                          \* ne0  (xs:double literal)
 InstOf(e, t)  == [k |-> "instof", e |-> e, t |-> t]               \* e instance of t
 Map(a, r)     == [k |-> "map", s |-> a, r |-> r]                  \* a ! r   (r evaluated with the focus on each item)
+Some(v, a, c) == [k |-> "some", v |-> v, s |-> a, c |-> c]        \* some $v in a satisfies c
+MapK(e)       == [k |-> "mapk", e |-> e]                          \* map{"k": e}?k   (3.1)
 Kids(n)       == [k |-> "kids", n |-> n]                          \* /r/*[position() le n] on the fixed document
 (* the fixed document <r><a>1</a><b>22</b><c>333</c></r>: element items = [node |-> name, sv |-> string value] *)
 DocKids == <<[node |-> "a", sv |-> "1"], [node |-> "b", sv |-> "22"], [node |-> "c", sv |-> "333"]>>
@@ -213,6 +215,7 @@ ApplyNamed(name, args) ==
     [] name = "concat" -> <<S(ConcatStr([j \in 1..Len(args) |-> StrOf(args[j])]))>>
     [] name = "string" -> <<S(StrOf(args[1]))>>
     [] name = "count" -> <<I(Len(args[1]))>>
+    [] name = "array:flatten" -> Flatten(args[1][1].arr)
     [] name = "reverse" -> RevSeq(args[1])
     [] name = "for-each" -> ForEach(args[1], args[2][1])
     [] name = "filter" -> Filter(args[1], args[2][1])
@@ -243,6 +246,9 @@ Eval(e, env) ==
     [] e.k = "dlit" -> <<D(e.v)>>
     [] e.k = "instof" -> LET v == Eval(e.e, env) IN <<B(Len(v) = 1 /\ TypeMatch(v[1], e.t))>>
     [] e.k = "kids" -> SubSeq(DocKids, 1, e.n)
+    [] e.k = "mapk" -> Eval(e.e, env)
+    [] e.k = "some" -> LET s == Eval(e.s, env) IN
+                       <<B(\E j \in 1..Len(s) : EBV(Eval(e.c, Ext(env, e.v, <<s[j]>>))))>>
     [] e.k = "map" ->
          LET s == Eval(e.s, env) IN
          Flatten([j \in 1..Len(s) |-> Eval(e.r, WithFocus(env, s[j], j, Len(s)))])
@@ -296,6 +302,7 @@ Update(d, e) == [v \in DOMAIN d \cup DOMAIN e |-> IF v \in DOMAIN e THEN e[v] EL
 M0 == [d |-> EmptyEnv]
 R(v, m) == [v |-> v, m |-> m]
 
+RECURSIVE SomeI(_, _, _), ForEachI(_, _, _, _)
 RECURSIVE EvalI(_, _), EvalSeqI(_, _), EvalMaskI(_, _), CallI(_, _, _), BindSlotsI(_, _, _, _, _, _), MapI(_, _, _, _, _),
           FillSlotsI(_, _, _, _), ForI(_, _, _, _), ApplyNamedI(_, _, _)
 
@@ -317,8 +324,20 @@ SlotPoison(slots) == \E j \in 1..Len(slots) : Has(slots[j], "val") /\ IsPoison(s
 SlotsOf(args) == [j \in 1..Len(args) |-> IF args[j].k = "hole" THEN HoleM ELSE [tok |-> args[j]]]
 
 (* builtins used by the Closures programs only (no higher-order builtin there) *)
+(* for-each is the one higher-order builtin the Closures programs use: func(item, context=context) per item *)
+ForEachI(items, f, acc, m) ==
+  IF items = <<>> THEN R(acc, m)
+  ELSE LET r == CallI(f, << <<Head(items)>> >>, m) IN
+       IF IsPoison(r.v) THEN R(PoisonOf(r.v), r.m) ELSE ForEachI(Tail(items), f, acc \o r.v, r.m)
 ApplyNamedI(name, vs, m) ==
-  IF AnyPoison(vs) THEN R(PoisonOf(FirstPoison(vs)), m) ELSE R(ApplyNamed(name, vs), m)
+  IF AnyPoison(vs) THEN R(PoisonOf(FirstPoison(vs)), m)
+  ELSE IF name = "for-each" THEN ForEachI(vs[1], vs[2][1], <<>>, m)
+  ELSE R(ApplyNamed(name, vs), m)
+SomeI(e, items, m) ==
+  IF items = <<>> THEN R(<<B(FALSE)>>, m)
+  ELSE LET r == EvalI(e.c, [m EXCEPT !.d = Ext(m.d, e.v, <<Head(items)>>)]) IN
+       IF IsPoison(r.v) THEN R(PoisonOf(r.v), m)
+       ELSE IF EBV(r.v) THEN R(<<B(TRUE)>>, m) ELSE SomeI(e, Tail(items), m)
 
 (* inline partial function: for (param, token) in zip(varnames, items):
    a bare '?' takes the next call argument, any other token is a value *)
@@ -384,6 +403,10 @@ EvalI(e, m) ==
                          IF IsPoison(r.v) THEN R(PoisonOf(r.v), r.m)
                          ELSE R(<<B(Len(r.v) = 1 /\ TypeMatch(r.v[1], e.t))>>, r.m)
     [] e.k = "kids" -> R(SubSeq(DocKids, 1, e.n), m)
+    [] e.k = "mapk" -> EvalI(e.e, m)
+    [] e.k = "some" -> LET s == EvalI(e.s, m) IN SomeI(e, s.v, s.m)
+    [] e.k = "arr" -> LET a == EvalSeqI(e.es, m) IN
+                      IF AnyPoison(a.vs) THEN R(PoisonOf(FirstPoison(a.vs)), a.m) ELSE R(<<[arr |-> a.vs]>>, a.m)
     [] e.k = "map" -> LET s == EvalI(e.s, m)
                           r == MapI(e, s.v, 1, <<>>, s.m) IN R(r.v, [r.m EXCEPT !.d = m.d])
     [] e.k = "lits" -> R([j \in 1..Len(e.ns) |-> I(e.ns[j])], m)
